@@ -104,26 +104,31 @@ proved is (a) the invariant the code does enforce, `ValidCode` — identical to 
 `min <= max` reads "not `min > max`" — for every history, and (b) `Valid` itself under the explicit
 hypothesis that no axis bound of the resulting object is NaN. -/
 
+/-! `Op.WF` is the well-formedness of an operation's *inputs*; it is `True` for every operation except
+`minMax` (`compute_and_add_axis_min_max`), whose per-axis bounds are `np.min` / `np.max` of one non-empty
+selection of values and therefore satisfy "not `lo > hi`" — a fact about numpy's reductions that the
+harness supplies and checks for every generated column.  (The model never computes on floats.) -/
+
 /-- **C07 (enforced invariant, all histories)**: every object obtained by construction / parsing /
 reading attributes, and then changed by any sequence of assignments (valid or invalid values),
 copies and helper calls, satisfies the enforced invariant — induction over the operation list. -/
 theorem C07_invariant_code (env : Env) (hdef : env.versionOk env.defaultVersion = true)
-    (init : Init) (o : MetaObj) (h : start env init = .ok o) (ops : List Op) :
+    (init : Init) (o : MetaObj) (h : start env init = .ok o) (ops : List Op) (hwf : ∀ op ∈ ops, op.WF) :
     ValidCode env (run env o ops).val :=
-  run_valid hdef ops (start_valid hdef h)
+  run_valid hdef ops hwf (start_valid hdef h)
 
 /-- **C07 (the specification, all histories, NaN bounds excluded)** -/
 theorem C07_invariant_partial (env : Env) (hdef : env.versionOk env.defaultVersion = true)
-    (init : Init) (o : MetaObj) (h : start env init = .ok o) (ops : List Op)
+    (init : Init) (o : MetaObj) (h : start env init = .ok o) (ops : List Op) (hwf : ∀ op ∈ ops, op.WF)
     (hnan : NoNaNBounds (run env o ops).val) :
     Valid env (run env o ops).val :=
-  (valid_iff_validCode env _).2 ⟨C07_invariant_code env hdef init o h ops, hnan⟩
+  (valid_iff_validCode env _).2 ⟨C07_invariant_code env hdef init o h ops hwf, hnan⟩
 
 /-- the same for every intermediate object of the history, not only the last one -/
 theorem C07_every_step_partial (env : Env) (hdef : env.versionOk env.defaultVersion = true)
-    (init : Init) (o : MetaObj) (h : start env init = .ok o) (ops : List Op) :
+    (init : Init) (o : MetaObj) (h : start env init = .ok o) (ops : List Op) (hwf : ∀ op ∈ ops, op.WF) :
     ∀ r ∈ trace env o ops, NoNaNBounds r.2.val → Valid env r.2.val :=
-  fun r hr hnan => (valid_iff_validCode env _).2 ⟨trace_valid hdef ops (start_valid hdef h) r hr, hnan⟩
+  fun r hr hnan => (valid_iff_validCode env _).2 ⟨trace_valid hdef ops hwf (start_valid hdef h) r hr, hnan⟩
 
 /-- the gap between the two is exactly "some axis bound is NaN" -/
 theorem C07_gap (env : Env) (m : Meta) : Valid env m ↔ ValidCode env m ∧ NoNaNBounds m :=
@@ -179,10 +184,10 @@ def nanObj : MetaObj :=
 violates `min <= max` (replayed on the implementation: `harness/corpus/C07/nan-axis-bound.json`) -/
 theorem C07_counterexample_nan :
     ¬ (∀ (env : Env), env.versionOk env.defaultVersion = true → ∀ init o, start env init = .ok o →
-        ∀ ops, Valid env (run env o ops).val) := by
+        ∀ ops, (∀ op ∈ ops, op.WF) → Valid env (run env o ops).val) := by
   intro h
   have hs : start exEnv nanInit = .ok nanObj := by decide
-  exact absurd (h exEnv (by decide) nanInit nanObj hs []) (by decide)
+  exact absurd (h exEnv (by decide) nanInit nanObj hs [] (by simp)) (by decide)
 
 def exAxes : J := .arr [.obj [("name", .str "x")], .obj [("name", .str "y"), ("type", .str "space")]]
 def exInit : Init := .parse (.obj (reqKeys ++ [("axes", exAxes)]))
@@ -205,5 +210,17 @@ example :
         (.obj [("display_horizontal", .str "x"), ("display_vertical", .str "y")]))).1 = none ∧
     NoNaNBounds (run exEnv exObj [.assign "geff_version" (.str "0.3.1"), .copy,
         .updateAxes ["t", "x"] none (some [some "time", none]) none none none]).val := by decide
+
+/-- `compute_and_add_axis_min_max` in a history: a well-formed call returns a new object whose axes carry
+the bounds; a column that is absent, or whose entries are all flagged missing, raises `ValueError` and
+the object stays what it was; an empty column leaves the axis alone -/
+example :
+    let ok : Op := .minMax [("x", .bounds (.fin (-3) 1) (.fin 5 0)), ("y", .noValues)]
+    ok.WF ∧ (step exEnv exObj ok).1 = none ∧
+    ((step exEnv exObj ok).2.val.axes.map (·.map (fun a => (a.name, a.min, a.max)))) =
+      some [("x", some (.fin (-3) 1), some (.fin 5 0)), ("y", none, none)] ∧
+    step exEnv exObj (.minMax [("x", .noValues)]) = (some .value, exObj) ∧
+    step exEnv exObj (.minMax [("x", .allMissing), ("y", .noValues)]) = (some .value, exObj) ∧
+    ¬ (Op.minMax [("x", .bounds (.fin 5 0) (.fin 1 0))]).WF := by decide
 
 end GeffProps.C07
